@@ -157,9 +157,17 @@ def run(ctx):
                         g, asst = d.derive()
                         w = sum(g.factors[e.label.name].apply([g.domains[v.label.name].denumberize(asst[v]) for v in e.nodes]).item() for e in g.edges())
                         ctx.evaluations += 1
-                        if w != z.item():
+                        # the property: the weight does not depend on the presentation (that it is the maximum is C04's claim;
+                        # with +inf log-weights meeting -inf ones it is not: finding D35 there)
+                        if 'viterbi-weight' not in results:
+                            results['viterbi-weight'] = w
+                        elif not (w == results['viterbi-weight'] or (w != w and results['viterbi-weight'] != results['viterbi-weight'])):
+                            ctx.fail('weight of the viterbi derivation depends on how the grammar is written down',
+                                     dict(case, presentation=p), w, results['viterbi-weight'], tags=['presentation', 'viterbi-weight'])
+                        posinf = any(x == math.inf for wv in sh['vweights'].values() for x in wv)
+                        if w != z.item() and not posinf:
                             ctx.fail('weight of the viterbi derivation differs from the Viterbi sum_product in this presentation',
-                                     dict(case, presentation=p), w, z.item(), tags=['presentation', 'viterbi-weight'])
+                                     dict(case, presentation=p), w, z.item(), tags=['presentation', 'viterbi-weight', 'not-maximal'])
                 except RecursionError:
                     pass
                 except Exception as e:  # noqa
